@@ -84,7 +84,22 @@ pub fn sigma_full(l: L) -> Vec<String> {
             out.push(w.to_string());
         }
     }
-    for p in [",", ".", ";", "-"] {
+    // fragments of compound / hyphenated numbers, as a speech recogniser's spurious spaces produce them
+    let fragments: &[&str] = match l {
+        L::En => &["twenty-", "-one", "twenty-and"],
+        L::Fr => &["vingt-et", "et-un", "vingt-"],
+        L::De => &["einund", "undzwanzig", "zweiund", "hundertund"],
+        L::Nl => &["eenen", "entwintig", "tweeën"],
+        L::It => &["ventie", "milacento", "centoe"],
+        _ => &[],
+    };
+    for w in fragments {
+        if !out.iter().any(|x| x == w) {
+            out.push(w.to_string());
+        }
+    }
+    // words mixing letters with other characters, and punctuation tokens
+    for p in ["qw'fp", "e-xyzzy", "b2", "xyzzy,", ",", ".", ";", "-", ". "] {
         out.push(p.to_string());
     }
     out
